@@ -5,6 +5,8 @@
 //!   json <Command as serde_json>      -> serde decode, `validate_command`
 //!   text <KIP text on one line>       -> `parse_kip`
 //!   assert <{"prefix":n,"spec":{…}}>  -> `MUTATE { n × CREATE CONCEPT … ASSERT … }` through `parse_kip`
+//!   refuse <key> <KIP text>           -> `parse_kip` must refuse (a shape the tree cannot even express,
+//!                                        e.g. structure created from a bare id); accepted = oracle failure <key>
 //!
 //! For every op the real `Command` (when there is one) is projected through its serde_json encoding
 //! to the Lean driver's line format and the accept/reject verdict (and, when recognised, the reason)
@@ -197,6 +199,10 @@ impl Env {
         if n > 0 {
             self.report.hit_n("observed:accepted_structural_field_named_like_engine_owned", n);
         }
+        let n = oracle::near_miss_keys(tree);
+        if n > 0 {
+            self.report.hit_n("observed:accepted_key_near_miss_of_engine_owned_name", n);
+        }
         let violations = oracle::check(tree);
         for v in violations {
             self.report.hit(&format!("oracle:{}", v.key));
@@ -231,6 +237,20 @@ impl Env {
         let (kind, rest) = op.split_once(' ').unwrap_or((op, ""));
         if kind == "assert" {
             return self.eval_assert(op, rest);
+        }
+        if kind == "refuse" {
+            let (key, text) = rest.split_once(' ').unwrap_or((rest, ""));
+            self.report.hit("op:refuse");
+            self.report.case(op, false);
+            match run_real(&format!("text {text}")) {
+                Real::Accepted(tree) => {
+                    self.report.oracle_failure(key, "a command the property says must be refused was accepted", &[op.to_string()], "refused", &format!("accepted as {}", project::short(&tree)))
+                }
+                Real::Panicked(msg) => self.report.oracle_failure("panic", "the parser panicked", &[op.to_string()], "Ok or Err", &msg),
+                Real::Rejected(e, _) => self.report.hit(&format!("refused:{key}:{}", text_reason(&e))),
+                Real::Undecodable => {}
+            }
+            return;
         }
         self.report.hit(&format!("op:{kind}"));
         match run_real(op) {
@@ -658,6 +678,25 @@ fn asserts(thorough: bool) -> Vec<String> {
         ops.push(mk(1, None, members.clone(), Value::Null, false));
         ops.push(mk(1, Some("a"), members, json!({"Handle": "p0"}), true));
     }
+    // no structure from a bare id: `(id: …)` names an existing Proposition and can drive neither
+    // ENSURE PROPOSITION nor the ASSERT sugar (the tree cannot even express it, so text only)
+    for id in ["\"P-1\"", ":pid", "7", "null"] {
+        for (head, tail) in [
+            ("ENSURE PROPOSITION", ""),
+            ("ENSURE PROPOSITION ?p", ""),
+            ("ensure proposition ?p", " EXPECT VERSION 3"),
+            ("ASSERT", " { by: :alice, mode: \"stated\" }"),
+            ("ASSERT ?a", " { by: :alice, mode: \"stated\", evidence: :e } SUPERSEDING :old"),
+        ] {
+            ops.push(format!("refuse structure-from-bare-id {head} (id: {id}){tail}"));
+            ops.push(format!("refuse structure-from-bare-id MUTATE {{ CREATE CONCEPT ?c {{ TYPE \"T\" }} {head} ( id : {id} ){tail} }}"));
+        }
+    }
+    // … nor from a predicate path or a ?variable predicate
+    for pred in ["\"a\" | \"b\"", "\"a\"{1,3}", "?v"] {
+        ops.push(format!("refuse structure-from-inexact-tuple ENSURE PROPOSITION ?p (:s, {pred}, :o)"));
+        ops.push(format!("refuse structure-from-inexact-tuple ASSERT (:s, {pred}, :o) {{ by: :alice, mode: \"stated\" }}"));
+    }
     // two handle-less ASSERTs need distinct synthetic handles: positions 0..3
     for prefix in 0..4 {
         ops.push(mk(prefix, None, vec![("by".to_string(), param("alice")), ("mode".to_string(), lit("observed"))], Value::Null, false));
@@ -715,7 +754,7 @@ fn main() {
     // the matrix, the selections and the ASSERT member subsets are enumerated completely
     env.report.exhaustive = true;
 
-    let n = args.budget(6000, 120_000);
+    let n = args.budget(6000, 400_000);
     for i in 0..n {
         let mut rng = Rng::for_case(args.seed, i);
         let mut cmd = random_plan(&mut rng);
@@ -732,5 +771,9 @@ fn main() {
          Random part: multi-clause plans over handle graphs."
             .into(),
     );
+    for k in ["observed:accepted_key_near_miss_of_engine_owned_name", "observed:accepted_structural_field_named_like_engine_owned", "reason_unrecognised"] {
+        let n = env.report.histogram.get(k).copied().unwrap_or(0);
+        env.report.measured.insert(k.to_string(), json!(n));
+    }
     env.report.write(&args);
 }
